@@ -1195,3 +1195,79 @@ Proof.
     rewrite app_nth2 by lia. rewrite Nat.sub_diag.
     destruct l2; [contradiction|reflexivity].
 Qed.
+
+(* ---------------------------------------------------------------- the second layout of inFlowLayout *)
+
+Lemma retry_step_ge km us forced h s b r a : (r <= retry_step km us forced h s b r a)%Z.
+Proof.
+  unfold retry_step.
+  destruct ((s <? b_first a) && (b_first a <? b) && (b <=? b_last a) && (0 <? b_dec a)%Z &&
+            forallb (fun c => negb (forced c)) (seq (S (b_first a)) (b_last a - b_first a))) eqn:E; [|lia].
+  destruct (Qle_bool _ h && negb (Qle_bool _ h)); [|lia].
+  apply andb_true_iff in E. destruct E as [E _]. apply andb_true_iff in E. destruct E as [_ E].
+  apply Z.ltb_lt in E. lia.
+Qed.
+
+Lemma fold_retry_ge km us forced h s b l r :
+  (r <= fold_left (retry_step km us forced h s b) l r)%Z.
+Proof.
+  revert r. induction l as [|a t IH]; intros r; cbn [fold_left]; [lia|].
+  eapply Z.le_trans; [apply (retry_step_ge km us forced h s b r a)|apply IH].
+Qed.
+
+(* the reservation is never negative ... *)
+Theorem reserve_nonneg km us forced h s b : (0 <= reserve km us forced h s b)%Z.
+Proof. apply fold_retry_ge. Qed.
+
+(* ... so a page that fits with the room reserved by the second layouts fits *)
+Theorem fits_retry_fits css d us st s e :
+  fits_retry css d us st s e = true -> fits_doc css d us st s e = true.
+Proof.
+  unfold fits_retry, fits_doc. intros H. apply Qle_bool_iff in H. apply Qle_bool_iff.
+  eapply Qle_trans; [|exact H]. rewrite <- Zle_Qle.
+  pose proof (reserve_nonneg (keep_margins css us s) us (forced_at css us)
+                (page_height (d_rules d) (content_ptype css (d_rtl d) us st s)) s e). lia.
+Qed.
+
+(* every block record carries the bottom padding / border of a closing of the flow *)
+Lemma close_blocks_dec (P : Z -> Prop) i pos cs stack acc :
+  Forall (fun c => P (c_pb c)) cs -> Forall (fun a => P (b_dec a)) acc ->
+  Forall (fun a => P (b_dec a)) (snd (close_blocks i pos cs stack acc)).
+Proof.
+  revert pos stack acc. induction cs as [|c r IH]; intros pos stack acc Hc Ha; [destruct stack; exact Ha|].
+  destruct stack as [|f st]; [exact Ha|]. cbn [close_blocks].
+  inversion Hc as [|? ? Hc1 Hc2]; subst. apply IH; [exact Hc2|]. constructor; [exact Hc1|exact Ha].
+Qed.
+
+Lemma blocks_from_dec (P : Z -> Prop) us : forall i stack acc,
+  Forall (fun u => Forall (fun c => P (c_pb c)) (u_closes u)) us ->
+  Forall (fun a => P (b_dec a)) acc ->
+  Forall (fun a => P (b_dec a)) (blocks_from i us stack acc).
+Proof.
+  induction us as [|u r IH]; intros i stack acc Hu Ha; [exact Ha|].
+  cbn [blocks_from]. inversion Hu as [|? ? Hu1 Hu2]; subst.
+  pose proof (close_blocks_dec P i 0 (u_closes u) (repeat i (length (u_opens u)) ++ stack) acc Hu1 Ha) as Hc.
+  destruct (close_blocks i 0 (u_closes u) (repeat i (length (u_opens u)) ++ stack) acc) as [stack2 acc2].
+  apply IH; [exact Hu2|exact Hc].
+Qed.
+
+(* without bottom padding / border nothing is reserved: the implementation's reading of "still
+   fits" is then the specification's *)
+Theorem reserve_zero_without_bottom_decoration km us forced h s b :
+  Forall (fun u => Forall (fun c => c_pb c = 0%Z) (u_closes u)) us ->
+  reserve km us forced h s b = 0%Z.
+Proof.
+  intros H. unfold reserve, blocks_of.
+  pose proof (blocks_from_dec (fun z => z = 0%Z) us 0 [] [] H (Forall_nil _)) as Hb.
+  induction Hb as [|a t Ha Ht IHt]; [reflexivity|].
+  cbn [fold_left]. replace (retry_step km us forced h s b 0 a) with 0%Z; [exact IHt|].
+  unfold retry_step. rewrite Ha. cbn [Z.ltb Z.compare]. rewrite !andb_false_r. cbn [andb]. reflexivity.
+Qed.
+
+Corollary fits_retry_without_bottom_decoration css d us st s e :
+  Forall (fun u => Forall (fun c => c_pb c = 0%Z) (u_closes u)) us ->
+  fits_retry css d us st s e = fits_doc css d us st s e.
+Proof.
+  intros H. unfold fits_retry, fits_doc. rewrite (reserve_zero_without_bottom_decoration _ _ _ _ _ _ H).
+  rewrite Z.add_0_r. reflexivity.
+Qed.
